@@ -10,7 +10,8 @@ p = os.path.join(HERE, "tools", "fixed_table_extra.json")
 d = json.load(open(p))
 d[subj] = [props.split(",")[0], what]
 json.dump(d, open(p, "w"), indent=1)
-print(subprocess.check_output(["python3", os.path.join(HERE, "tools", "gen_fixed.py")], text=True).strip().splitlines()[-1])
+r = subprocess.run(["python3", os.path.join(HERE, "tools", "gen_fixed.py")], capture_output=True, text=True)
+print((r.stdout.strip().splitlines() or [r.stderr[-200:]])[-1])
 diff = subprocess.check_output(["git", "-C", "/repo", "diff", commit, commit + "~1", "--", "fortls"], text=True)
 open(os.path.join(HERE, "mutants", name + ".diff"), "w").write(f"# property: {props}\n# reverse of {commit[:7]} ({subj})\n" + diff)
 print("mutant", name)
